@@ -27,6 +27,23 @@ def _shape(sig):
     return c
 
 
+def body_shape(node):
+    """Counter of tokens of a function body that survive renaming of locals
+    and of private helpers: node kinds, string constants, public attribute
+    names and the names of parameters."""
+    c = collections.Counter()
+    for n in ast.walk(node):
+        c["<%s>" % type(n).__name__] += 1
+        if isinstance(n, ast.Attribute) and not n.attr.startswith("_"):
+            c["." + n.attr] += 1
+        elif isinstance(n, ast.Constant) and isinstance(n.value, str) and \
+                len(n.value) < 60:
+            c["s:" + n.value] += 1
+        elif isinstance(n, ast.arg):
+            c["p:" + n.arg] += 1
+    return c
+
+
 def _sim(a, b):
     inter = sum((a & b).values())
     union = sum((a | b).values())
@@ -41,9 +58,10 @@ def restore_names(model, threshold=0.6):
     pkg = model.pkg + "."
     cur = {q[len(pkg):]: fi for q, fi in model.funcs.items()}
     schema = set(ref_funcs.get("__schema__", []))
+    ref_shapes = ref_funcs.get("__shapes__", {})
     vanished = [q for q in ref_funcs
                 if not q.startswith("__") and ".<locals>." not in q and
-                q not in cur and q in ref_sigs]
+                q not in cur and (q in ref_sigs or q in ref_shapes)]
     new = [q for q, fi in cur.items() if q not in ref_funcs and
            fi.module[len(pkg):] not in schema and fi.module not in schema]
     if not vanished or not new:
@@ -61,9 +79,11 @@ def restore_names(model, threshold=0.6):
                 nm = getattr(c.func, "attr", None) or getattr(c.func, "id", None)
                 if nm:
                     cur_callers.setdefault(nm, set()).add(q)
+    body_new = {}
     for v in vanished:
-        sv = _shape(ref_sigs[v])
-        if sum(sv.values()) < 3:
+        sv = _shape(ref_sigs[v]) if v in ref_sigs else collections.Counter()
+        bv = collections.Counter(ref_shapes.get(v, {}))
+        if sum(sv.values()) < 3 and not bv:
             continue
         vname = v.rsplit(".", 1)[-1]
         vc = set(ref_callers.get(vname, []))
@@ -73,14 +93,23 @@ def restore_names(model, threshold=0.6):
             if n not in shapes_new:
                 shapes_new[n] = _shape({k: dict(c) for k, c in
                                         alpha.signatures(cur[n].node).items()})
-            s = _sim(sv, shapes_new[n])
+            s = _sim(sv, shapes_new[n]) if sum(sv.values()) >= 3 else 0.0
+            if bv:
+                if n not in body_new:
+                    body_new[n] = body_shape(cur[n].node)
+                sb = _sim(bv, body_new[n])
+                # tiny bodies carry little evidence: ask for (near) identity
+                if sum(bv.values()) >= 25 or sb >= 0.95:
+                    s = max(s, sb)
             # the same functions that called the vanished name now call the
             # new one (and nobody calls the vanished name any more)
             nc = cur_callers.get(n.rsplit(".", 1)[-1], set())
             if vc and nc and vname not in cur_callers:
                 cj = len(vc & nc) / float(len(vc | nc))
                 if cj >= 0.6 and s >= 0.25:
-                    s = max(s, 0.6 + 0.4 * cj)
+                    # graded by the body similarity, so that two new helpers
+                    # of the same caller do not tie
+                    s = max(s, 0.6 + 0.4 * cj * s)
             if s >= threshold:
                 scores.append((s, v, n))
     scores.sort(key=lambda t: (-t[0], t[1], t[2]))
@@ -97,18 +126,25 @@ def restore_names(model, threshold=0.6):
         used_v.add(v)
         used_n.add(n)
     applied = {}
+    # a rename is a package-wide alpha-conversion of ONE identifier: every
+    # definition of the new name (the same method may be defined in several
+    # classes) must be paired with a vanished definition of the same old name
+    by_name = {}
     for n, v in out.items():
-        new_name = n.rsplit(".", 1)[-1]
-        old_name = v.rsplit(".", 1)[-1]
+        by_name.setdefault(n.rsplit(".", 1)[-1], set()).add(v.rsplit(".", 1)[-1])
+    for new_name, olds in sorted(by_name.items()):
+        if len(olds) != 1:
+            continue
+        old_name = next(iter(olds))
         if new_name == old_name:
             continue
-        # the new identifier must denote nothing else, the old one must be free
         defs_new = [q for q in cur if q.rsplit(".", 1)[-1] == new_name]
-        defs_old = [q for q in cur if q.rsplit(".", 1)[-1] == old_name and
-                    scope(q) == scope(n)]
-        if len(defs_new) != 1 or defs_old:
+        if any(q not in out for q in defs_new):
             continue
-        fi = cur[n]
+        # the old identifier must be free in each scope it returns to
+        if any(q.rsplit(".", 1)[-1] == old_name and
+               scope(q) in {scope(d) for d in defs_new} for q in cur):
+            continue
         for mi in model.modules.values():
             if new_name not in mi.source:
                 continue
@@ -117,22 +153,23 @@ def restore_names(model, threshold=0.6):
                     node.attr = old_name
                 elif isinstance(node, ast.Name) and node.id == new_name:
                     node.id = old_name
-                elif isinstance(node, ast.keyword) and False:
-                    pass
-        fi.node.name = old_name
-        # re-index
-        del model.funcs[fi.qual]
-        fi.qual = pkg + v
-        fi.name = old_name
-        model.funcs[fi.qual] = fi
-        if fi.cls and fi.cls in model.classes:
-            ms = model.classes[fi.cls].methods
-            ms.pop(new_name, None)
-            ms[old_name] = fi
-        else:
-            mi = model.modules.get(fi.module)
-            if mi:
-                mi.functions.pop(new_name, None)
-                mi.functions[old_name] = fi
-        applied[n] = v
+        for n in defs_new:
+            v = out[n]
+            fi = cur[n]
+            fi.node.name = old_name
+            # re-index
+            del model.funcs[fi.qual]
+            fi.qual = pkg + v
+            fi.name = old_name
+            model.funcs[fi.qual] = fi
+            if fi.cls and fi.cls in model.classes:
+                ms = model.classes[fi.cls].methods
+                ms.pop(new_name, None)
+                ms[old_name] = fi
+            else:
+                mi = model.modules.get(fi.module)
+                if mi:
+                    mi.functions.pop(new_name, None)
+                    mi.functions[old_name] = fi
+            applied[n] = v
     return applied
